@@ -1204,3 +1204,38 @@ def rule_empty_selection_guarded(check, rule):
                                 '(every later call recurses)' % fname, key=key, guards=' & '.join(show_lit(l) for l in p.lits)[:200],
                                 witness="autokwoargs(posoargs('a')(lambda a, b: 0))(1, 2) -> RecursionError")
     check.floor(rule, 'translator-building paths of kwoargs()/posoargs()', n, 2)
+
+
+def rule_bound_copy_selection(check, rule):
+    """C12.R9 (D52, known; same root as D24): "called directly or as a bound method it accepts exactly the calls that signature accepts".
+    Binding consumes the first parameter.  The descriptor builds the bound copy by applying the selection of names again to the bound
+    function; when it hands on the *unbound* selection unchanged (`kwargs.update(self.parameters())`), a selection that contains the
+    consumed parameter -- `posoargs('self', 'a')`, the only way to make a method's parameters positional-only explicitly -- names a
+    parameter the bound function does not have, and reading the attribute on an instance raises ValueError."""
+    import ast
+    from .index import norm
+    repo = check.repo
+    fi = repo.func('_util:OverrideableDataDesc.__init__')
+    check.analysed(fi)
+    getters = [x for x in ast.walk(fi.node) if isinstance(x, ast.FunctionDef) and x is not fi.node]
+    n = 0
+    for g in getters:
+        builds = [c for c in ast.walk(g) if isinstance(c, ast.Call) and norm(c.func).startswith('type(') and any(k.arg is None for k in c.keywords)]
+        if not builds:
+            continue
+        n += 1
+        key = 'bound-reapplies-selection|%s.%s' % (fi.key, g.name)
+        st = '%s %s' % (fi.loc(g), fi.key)
+        sel = [c for c in ast.walk(g) if isinstance(c, ast.Call) and isinstance(c.func, ast.Attribute) and c.func.attr == 'parameters' and not c.args]
+        filtered = any(isinstance(x, (ast.DictComp, ast.SetComp, ast.ListComp, ast.GeneratorExp)) or
+                       (isinstance(x, ast.BinOp) and isinstance(x.op, ast.Sub)) or
+                       (isinstance(x, ast.Call) and isinstance(x.func, ast.Attribute) and x.func.attr in ('difference', 'discard', 'remove', 'pop',
+                                                                                                           'difference_update'))
+                       for x in ast.walk(g))
+        if sel and not filtered:
+            check.violation(rule, st, 'the bound copy is built from the unbound selection as it is (%s): a selection containing the parameter that '
+                            'binding consumes cannot be applied to the bound function' % norm(sel[0]), key=key,
+                            witness="class C:\n    @posoargs('self', 'a')\n    def m(self, a, b=3): ...\nC().m raises ValueError: Parameters not found: self")
+        else:
+            check.holds(rule, st, 'the bound copy is built from a selection adjusted to the bound function', key=key)
+    check.floor(rule, 'default getters of the descriptor', n, 1)
